@@ -4,6 +4,9 @@ From OlaBase Require Import Bytes.
 From C10 Require Import Gen Model Lemmas.
 Local Open Scope N_scope.
 
+Section OpcReg.
+  Variable reg : N -> bool.
+
 (* `Frames d ms rest`: d splits into the complete frames ms followed by an incomplete tail rest *)
 Inductive Frames : list N -> list msg -> list N -> Prop :=
 | F_short d : len d < 4 -> Frames d [] d
@@ -11,7 +14,8 @@ Inductive Frames : list N -> list msg -> list N -> Prop :=
     Frames (ch :: cmd :: hi :: lo :: r) [] (ch :: cmd :: hi :: lo :: r)
 | F_frame ch cmd hi lo r ms rest : hi * 256 + lo <= len r ->
     Frames (drop (hi * 256 + lo) r) ms rest ->
-    Frames (ch :: cmd :: hi :: lo :: r) ((ch * 256 + cmd, take (hi * 256 + lo) r) :: ms) rest.
+    Frames (ch :: cmd :: hi :: lo :: r)
+      ((if reg ch then [(ch * 256 + cmd, take (hi * 256 + lo) r)] else []) ++ ms) rest.
 
 Lemma len4 {A} (a b c d : A) r : len (a :: b :: c :: d :: r) = 4 + len r.
 Proof. rewrite !len_cons. lia. Qed.
@@ -64,13 +68,13 @@ Lemma Frames_app a m1 r1 : Frames a m1 r1 ->
   forall b m2 r2, Frames (r1 ++ b) m2 r2 -> Frames (a ++ b) (m1 ++ m2) r2.
 Proof.
   induction 1 as [d H|ch cmd hi lo r H|ch cmd hi lo r ms rest H F IH]; intros b m2 r2 F2; auto.
-  cbn [app]. rewrite <- (take_app_le (hi * 256 + lo) r b H).
+  cbn [app]. rewrite <- app_assoc. rewrite <- (take_app_le (hi * 256 + lo) r b H).
   apply F_frame.
   - rewrite len_app. lia.
   - rewrite drop_app_le by exact H. apply IH. exact F2.
 Qed.
 
-Lemma Frames_ref d m r : Frames d m r -> forall n, (length d <= n)%nat -> ref_opc_f n d = m.
+Lemma Frames_ref d m r : Frames d m r -> forall n, (length d <= n)%nat -> ref_opc_f reg n d = m.
 Proof.
   induction 1 as [d H|ch cmd hi lo r H|ch cmd hi lo r ms rest H F IH]; intros n Hl.
   - destruct n; [reflexivity|].
@@ -93,7 +97,7 @@ Qed.
 Lemma Frames_oframes d m r : Frames d m r ->
   forall fuel cap, (length d < fuel)%nat -> bytes_ok d = true -> len d <= cap -> 4 <= cap ->
   cap <= 65539 ->
-  exists cap', o_frames fuel d cap = Some ({| o_data := r; o_cap := cap' |}, m) /\
+  exists cap', o_frames reg fuel d cap = Some ({| o_data := r; o_cap := cap' |}, m) /\
                cap <= cap' /\ cap' <= 65539 /\ len r < cap'.
 Proof.
   change OPC_HEADER_SIZE with 4.
@@ -145,7 +149,7 @@ Qed.
 Lemma o_recv_frames s av m r : o_inv s -> av <> [] -> bytes_ok av = true ->
   let room := o_cap s - len (o_data s) in
   Frames (o_data s ++ take room av) m r ->
-  exists s1, o_recv s av = Some (s1, drop room av, m) /\ o_data s1 = r /\ o_inv s1 /\
+  exists s1, o_recv reg s av = Some (s1, drop room av, m) /\ o_data s1 = r /\ o_inv s1 /\
              take room av <> [].
 Proof.
   intros (Hf & Hb & Hr & H4 & Hm) Hne Hbav room F.
@@ -171,7 +175,7 @@ Qed.
 
 Lemma o_drain : forall fuel s av M R, o_inv s -> (length av <= fuel)%nat -> bytes_ok av = true ->
   Frames (o_data s ++ av) M R ->
-  exists s1, drain o_recv fuel s av = Done s1 M /\ o_data s1 = R /\ o_inv s1.
+  exists s1, drain (o_recv reg) fuel s av = Done s1 M /\ o_data s1 = R /\ o_inv s1.
 Proof.
   induction fuel as [|f IH]; intros s av M R Hi Hl Hb F.
   - destruct av; [|cbn [length] in Hl; lia]. rewrite app_nil_r in F.
@@ -204,7 +208,7 @@ Qed.
 
 Lemma o_feed : forall chunks s M R, o_inv s -> bytes_ok (concat chunks) = true ->
   Frames (o_data s ++ concat chunks) M R ->
-  exists s1, feed o_recv s chunks = Done s1 M /\ o_data s1 = R /\ o_inv s1.
+  exists s1, feed (o_recv reg) s chunks = Done s1 M /\ o_data s1 = R /\ o_inv s1.
 Proof.
   induction chunks as [|c cs IH]; intros s M R Hi Hb F; cbn [concat] in *.
   - rewrite app_nil_r in F. destruct (o_nil s M R Hi F) as [-> ->].
@@ -222,7 +226,7 @@ Proof.
 Qed.
 
 Lemma opc_chunk_free chunks : bytes_ok (concat chunks) = true ->
-  exists s, feed o_recv o_init chunks = Done s (ref_opc (concat chunks)).
+  exists s, feed (o_recv reg) o_init chunks = Done s (ref_opc reg (concat chunks)).
 Proof.
   intros Hb.
   destruct (Frames_total _ (concat chunks) (le_n _)) as (M & R & F).
@@ -231,7 +235,7 @@ Proof.
 Qed.
 
 Lemma opc_reachable_bounds chunks s out : bytes_ok (concat chunks) = true ->
-  feed o_recv o_init chunks = Done s out ->
+  feed (o_recv reg) o_init chunks = Done s out ->
   len (o_data s) < o_cap s /\ o_cap s <= 65539.
 Proof.
   intros Hb H.
@@ -239,3 +243,4 @@ Proof.
   destruct (o_feed chunks o_init M R o_inv_init Hb F) as (s1 & E & _ & Hi).
   rewrite E in H. inversion H; subst. destruct Hi as (_ & _ & A & _ & B). auto.
 Qed.
+End OpcReg.
